@@ -37,9 +37,9 @@ def cases(tier, seed):
     nconf = 36 if thorough else 12
     for idx in range(nconf):
         out.append(dict(id='grid-%d' % idx, kind='grid', conf=idx, seed=seed, dense=thorough))
-    for idx in range(24 if thorough else 6):
+    for idx in range(96 if thorough else 6):
         out.append(dict(id='big-%d' % idx, kind='big', seed=seed * 101 + idx))
-    for idx in range(120 if thorough else 16):
+    for idx in range(600 if thorough else 16):
         out.append(dict(id='rand-%d' % idx, kind='rand', seed=seed * 7001 + idx, count=60 if thorough else 25))
     return out
 
